@@ -12,6 +12,8 @@ CHECKS = {
                 text="Every emitted module is executed with only its own imports and its annotations evaluated in scope; names are censused from the ast.", note=TB, ref="4 C03"),
     "C04": dict(category="translation_validation", technique="runtime monitoring: per emitted program, class table from framework introspection compared with an independent rendering of the registry IR",
                 text="Translation validation per emitted program: loaded module vs independent rendering of ModelRegistry.models_map, field by field.", note=TB, ref="4 C04"),
+    "C05": dict(category="exploration", technique="runtime monitoring: merge monitor wrapped around ModelRegistry.merge_models (snapshot, union-find reference partition, registry and pointer-graph walk)",
+                text="All similarity graphs on <=5 models (exhaustive; n=6 sampled in quick, complete in thorough) through a table-driven comparator, plus random inputs with the real comparators; each merge_models call is observed by the monitor.", note=TB, ref="4 C05"),
 }
 NOT_YET = {}
 props = [json.loads(l) for l in open(os.path.join(HERE, "properties.jsonl"))]
